@@ -279,9 +279,9 @@ class UnitBuilder:
         d = 0
         cur = ''
         for ch in txt:
-            if ch in '({<':
+            if ch in '({':
                 d += 1
-            elif ch in ')}>':
+            elif ch in ')}':
                 d -= 1
             if ch == ',' and d == 0:
                 items.append(cur.strip())
